@@ -2985,9 +2985,74 @@ def _blowout_obj(S):
         S.attempt(B + 'save_sim', 'track=%s' % b.track, d, lambda: b.save_sim(os.path.join(dd, 'blowout.nc'), 'profile.nc', 'C20 profile'))
         S.attempt(B + 'save_txt', 'track=%s' % b.track, d,
                   lambda: (b.save_txt(os.path.join(dd, 'blowout_state'), 'profile.nc', 'C20 profile'), _txt_ok(os.path.join(dd, 'blowout_state.txt'), b.bpm))[1])
+    _blowout_histories(S)
     # ---- documented current form with its own key: profile of (depth, u, v) without the optional vertical component
     cur = np.array([[0., 0.1, 0.02], [5000., 0.05, 0.]])
     S.attempt('blowout.Blowout', 'current-2D-depth-u-v', {'current': cur}, lambda: _blowout_numbers(blowout.Blowout(z0=500., current=cur.copy(), num_gas_elements=2, num_oil_elements=2)))
+
+
+def _blowout_histories(S):
+    """History class: documented public calls of one Blowout object in a valid order — construct (dead oil, gor = 0, the default /
+    live oil, gor > 0), then update_gor / update_substance (to a LONGER and to a SHORTER compound list) / update_q_oil /
+    update_release_depth, then simulate().  Every simulate() (it rebuilds the release from the updated attributes) must
+    complete with a finite bent-plume solution.  Shallow release, few size classes, no far-field tracking: four short
+    simulations per run."""
+    from tamoc import blowout
+    r = S.r
+    B = 'blowout.Blowout.'
+
+    def oil(n_light, n_heavy):
+        light = ['methane', 'ethane', 'propane', 'isobutane', 'n-butane'][:n_light]
+        heavy = r.sample(['n-pentane', 'n-hexane', 'n-heptane', 'benzene', 'toluene', 'ethylbenzene'], n_heavy - 1) + ['n-decane']
+        w = np.concatenate([dirichlet(r, n_light) * r.uniform(0.15, 0.3), dirichlet(r, n_heavy)])
+        return {'composition': light + heavy, 'masses': w / w.sum()}
+
+    def new(sub, gor):
+        args = dict(z0=r.uniform(250., 350.), d0=r.uniform(0.12, 0.2), substance=sub, q_oil=lu(r, 3000., 8000.), gor=gor,
+                    num_gas_elements=2, num_oil_elements=2, current=np.array([0.05, 0., 0.]))
+        b = S.attempt('blowout.Blowout', 'history:gor%s:%dcompounds' % ('>0' if gor else '=0', len(sub['composition'])), args,
+                      lambda: blowout.Blowout(**args), need=True)
+        b.update_track_particles(False)
+        return b, args
+
+    def step(b, hist, name, value):
+        return S.attempt(B + name, 'history:' + hist, {'history': hist, 'value': value},
+                         lambda: (getattr(b, name)(value), [b.z0, b.d0, b.q_oil, b.gor])[1])
+
+    def sim(b, hist, log):
+        ok = S.attempt(B + 'simulate', 'history:' + hist, {'history': hist, 'steps': log},
+                       lambda: (b.simulate(), _bpm_positions_ok(b.bpm))[1])
+        if ok is not FAILED:
+            S.reached('blowout:history-simulate')
+        return ok
+    short, longer = oil(2, 3), oil(5, 5)
+    # H1: dead oil (gor = 0), then gas is added: the compound list grows by the natural-gas compounds
+    try:
+        b, a = new(short, 0.)
+        g = lu(r, 300., 1500.)
+        step(b, 'gor0->update_gor', 'update_gor', g)
+        sim(b, 'gor0->update_gor', [a, ('update_gor', g)])
+    except CallFailed:
+        pass
+    # H2: live oil (gor > 0), then a substance described by more compounds and another flow rate
+    try:
+        b, a = new(short, lu(r, 300., 1500.))
+        q = lu(r, 3000., 8000.)
+        step(b, 'gor>0->longer-substance->q_oil', 'update_substance', longer)
+        step(b, 'gor>0->longer-substance->q_oil', 'update_q_oil', q)
+        sim(b, 'gor>0->longer-substance->q_oil', [a, ('update_substance', longer), ('update_q_oil', q)])
+    except CallFailed:
+        pass
+    # H3: simulate, then a substance described by FEWER compounds and another release depth, simulate again
+    try:
+        b, a = new(longer, 0.)
+        if sim(b, 'simulate->shorter-substance->depth:first', [a]) is not FAILED:
+            z1 = r.uniform(200., 280.)
+            step(b, 'simulate->shorter-substance->depth', 'update_substance', short)
+            step(b, 'simulate->shorter-substance->depth', 'update_release_depth', z1)
+            sim(b, 'simulate->shorter-substance->depth', [a, 'simulate', ('update_substance', short), ('update_release_depth', z1)])
+    except CallFailed:
+        pass
 
 
 @entry('blowout.particles', 'blowout.get_ambient_profile', 'blowout.get_ctd_from_txt', 'blowout.create_ambient_profile')
@@ -3069,7 +3134,7 @@ CALL_FLOOR = 2            # every entry point with a caller is called at least t
 # branches / configurations every run (quick included) has to reach at least once
 REACH_FLOORS = ['seawater:hot-branch', 'seawater:above-boiling', 'seawater.k:S>35', 'InsolubleParticle:rigid', 'InsolubleParticle:fluid',
                 'FluidParticle:gas', 'FluidParticle:liquid', 'FluidParticle:mixed-two-phase', 'sbm:soluble', 'sbm:inert',
-                'bpm:soluble', 'bpm:inert', 'bpm:tracked', 'spm:soluble', 'spm:inert', 'blowout:simulate',
+                'bpm:soluble', 'bpm:inert', 'bpm:tracked', 'spm:soluble', 'spm:inert', 'blowout:simulate', 'blowout:history-simulate',
                 'equilibrium:two-phase', 'equilibrium:single-phase']
 MIN_VERSIONS = {'numpy': (1, 16), 'scipy': (1, 2)}        # README.rst "Requirements" (re-read from the repo under test at run time)
 
